@@ -247,9 +247,13 @@ func pickMesh(c *hlib.Ctx, maxTris int) gmesh {
 
 func pickMesh1(c *hlib.Ctx) gmesh {
 	org := model3d.XYZ(dy(c, 2, 2), dy(c, 2, 2), dy(c, 2, 2))
-	switch c.Rng.Intn(14) {
+	switch c.Rng.Intn(16) {
 	case 13:
 		return spikedMesh(c)
+	case 14:
+		return gmesh{latLong(c, 3+c.Rng.Intn(5), hubValence(c)), "latlong", true}
+	case 15:
+		return gmesh{wheel(c, hubValence(c), 1+c.Rng.Intn(4)), "wheel", false}
 	case 0:
 		return gmesh{model3d.NewMeshIcosphere(org, 1, 1+c.Rng.Intn(4)), "icosphere", true}
 	case 1:
@@ -279,7 +283,11 @@ func pickMesh1(c *hlib.Ctx) gmesh {
 		m.AddMesh(b.m.Translate(model3d.X(math.Ceil(a.m.Max().X-b.m.Min().X) + 2)))
 		return gmesh{m, "multi(" + a.label + "+" + b.label + ")", a.closed && b.closed}
 	case 10:
-		return gmesh{model3d.NewMeshCylinder(org, org.Add(model3d.Z(1)), 0.5, 3+c.Rng.Intn(8)), "cylinder", true}
+		sides := 3 + c.Rng.Intn(8)
+		if c.Rng.Intn(3) == 0 {
+			sides = hubValence(c)
+		}
+		return gmesh{model3d.NewMeshCylinder(org, org.Add(model3d.Z(1)), 0.5, sides), "cylinder", true}
 	case 11:
 		// a single triangle / a tetrahedron: the smallest inputs
 		if c.Rng.Intn(2) == 0 {
@@ -288,6 +296,13 @@ func pickMesh1(c *hlib.Ctx) gmesh {
 			return gmesh{m, "single-triangle", false}
 		}
 		a, b2, c2, d := org.Add(model3d.XYZ(1, 1, 1)), org.Add(model3d.XYZ(1, -1, -1)), org.Add(model3d.XYZ(-1, 1, -1)), org.Add(model3d.XYZ(-1, -1, 1))
+		if c.Rng.Intn(2) == 0 {
+			// a wedge: two large faces hinged on the edge a-b2, two slivers (most of the area in two
+			// faces: the cumulative-area split of a closed component has to cut right after them)
+			h := math.Ldexp(1, -1-c.Rng.Intn(6))
+			a, b2 = org.Add(model3d.XYZ(0, -2, 0)), org.Add(model3d.XYZ(0, 2, 0))
+			c2, d = org.Add(model3d.XYZ(4+dy(c, 1, 2), dy(c, 1, 2), h)), org.Add(model3d.XYZ(4+dy(c, 1, 2), dy(c, 1, 2), -h))
+		}
 		m := model3d.NewMesh()
 		m.Add(&model3d.Triangle{a, b2, c2})
 		m.Add(&model3d.Triangle{a, c2, d})
@@ -313,6 +328,10 @@ func pickMesh1(c *hlib.Ctx) gmesh {
 // pickDisc returns a chart of a generated mesh (a disc by construction of the real code, verified
 // by the `charts` kind) or an open patch.
 func pickDisc(c *hlib.Ctx, maxTris int) (*model3d.Mesh, string) {
+	if maxTris >= 40 && c.Rng.Intn(4) == 0 {
+		// discs with interior vertices of high valence (rows of the Floater system with 17 and more entries)
+		return hubDisc(c, maxTris, false)
+	}
 	for tries := 0; tries < 80; tries++ {
 		g := pickMesh(c, 600)
 		if strings.Contains(g.label, "spiked") {
